@@ -168,6 +168,14 @@ pub fn check_timeline<S: Shape>(
 ) {
     let mut tl = S::build_tl(spec);
     if let Some(v) = subst {
+        // the substitution in force is the latest one: now and then an earlier, different substitution (and an
+        // evaluation under it) precede it
+        if index % 3 == 1 {
+            let other: Vec<f64> = v.iter().map(|x| if *x == 0.0 { 7.0 } else { (x * 0.5).trunc() - 3.0 }).collect();
+            tl.start_with(&S::from_vals(&other));
+            let mut scratch = S::default();
+            tl.update(&mut scratch, spec.delay + spec.cycle * 0.03125);
+        }
         tl.start_with(&S::from_vals(v));
     }
     let positions = probe_positions::<S>(spec, r);
